@@ -330,7 +330,10 @@ class NewKeysFlush(Contract):
 
     ensures = dict(queued_messages_flushed_in_order_under_the_new_keys=_flush)
     canaries = [("        for messageType, payload in messages:\n            self.sendPacket(messageType, payload)",
-                 "        for messageType, payload in reversed(messages):\n            self.sendPacket(messageType, payload)",
+                 "        for messageType, payload in messages[::-1]:\n            self.sendPacket(messageType, payload)",
+                 "queued_messages_flushed_in_order_under_the_new_keys"),
+                ("        self._keyExchangeState = self._KEY_EXCHANGE_NONE\n        messages = self._blockedByKeyExchange\n        self._blockedByKeyExchange = None\n",
+                 "        messages = self._blockedByKeyExchange\n        self._blockedByKeyExchange = None\n",
                  "queued_messages_flushed_in_order_under_the_new_keys")]
 
 
